@@ -2044,6 +2044,20 @@ _dispatch_disk_cleanup_inactive_operations(dispatch_disk_t disk,
 	_dispatch_disk_cleanup_specified_operations(disk, channel, true);
 }
 
+static void
+_dispatch_disk_cleanup_fd_entry_operations(dispatch_disk_t disk,
+		dispatch_fd_entry_t fd_entry)
+{
+	// On pick queue
+	dispatch_operation_t op, tmp;
+	TAILQ_FOREACH_SAFE(op, &disk->operations, operation_list, tmp) {
+		if (op->fd_entry == fd_entry) {
+			_dispatch_op_debug("cleanup: disk %p", op, disk);
+			_dispatch_disk_complete_operation(disk, op);
+		}
+	}
+}
+
 #pragma mark -
 #pragma mark dispatch_stream_handler/dispatch_disk_handler
 
@@ -2314,7 +2328,9 @@ _dispatch_disk_perform(void *ctxt)
 			_dispatch_disk_cleanup_operations(disk, op->channel);
 			break;
 		case DISPATCH_OP_FD_ERR:
-			_dispatch_disk_cleanup_operations(disk, NULL);
+			// The file descriptor of this operation has failed, the other
+			// files on this disk have not
+			_dispatch_disk_cleanup_fd_entry_operations(disk, op->fd_entry);
 			break;
 		default:
 			dispatch_assert(result);
@@ -2701,6 +2717,13 @@ _dispatch_operation_deliver_data(dispatch_operation_t op,
 		err = op->err;
 		if (!err && (op->channel->atomic_flags & DIO_STOPPED)) {
 			err = ECANCELED;
+			op->err = err;
+		}
+		if (!err && (flags & DOP_DONE) && op->total < op->length &&
+				op->fd_entry->err) {
+			// The operation was cut short by the cleanup that follows a
+			// failure of its file descriptor (EBADF in another operation)
+			err = op->fd_entry->err;
 			op->err = err;
 		}
 	}
